@@ -4,8 +4,19 @@ set -e
 cd "$(dirname "$0")/.."
 export GOFLAGS=-mod=mod GOPROXY=off GOSUMDB=off GOTOOLCHAIN=local
 mkdir -p build evidence replays
-if [ -d harness/factextract ]; then
-  (cd harness/factextract && go build -o ../../build/factextract . && ../../build/factextract -repo /repo -out ../../lean/EgVerif/Gen)
-fi
-(cd lean && lake build)
+# facts first (generated Lean modules are not committed)
+for f in harness/factextract/facts_c*.go; do
+  [ -e "$f" ] || continue
+  id=$(basename "$f" .go | sed 's/facts_\(c[0-9]*\).*/\1/' | tr a-z A-Z)
+  if [ ! -x build/factextract_$id ]; then
+    (cd harness/factextract && go build -o ../../build/factextract_$id main.go $(ls facts_$(echo $id | tr A-Z a-z)*.go))
+  fi
+  build/factextract_$id -repo /repo -out lean/EgVerif/Gen
+done
+targets=""
+for p in props/C*.json; do
+  id=$(basename "$p" .json)
+  targets="$targets EgVerif.Props.$id egjudge-$id"
+done
+bin/lk build EgVerif $targets
 echo "setup ok"
